@@ -61,16 +61,16 @@ structure Inv (s : St) : Prop where
   nof : s.killed = true → Emit.term .FAILED ∉ s.out
   orph : s.kind.basicLike = false → s.orphans = 0
 
-theorem step_inv (s : St) (op : Op) (h : Inv s) : Inv (step s op).1 := by
+theorem step_inv (c : Cfg) (s : St) (op : Op) (h : Inv s) : Inv (step c s op).1 := by
   obtain ⟨h1, h2, h3, h3', h4, h5, h6⟩ := h
   cases op <;> simp only [step, spawn, stopBasic, ctlTransition, reapCtl, escalate]
   all_goals (repeat' split)
   all_goals (refine ⟨?_, ?_, ?_, ?_, ?_, ?_, ?_⟩ <;> simp_all [not_mem_of_terminals_zero, Kind.basicLike])
 
-theorem init_inv (k : Kind) (b : Beh) : Inv (init k b).1 := by
+theorem init_inv (c : Cfg) (k : Kind) (b : Beh) : Inv (init c k b).1 := by
   cases k <;> simp only [init, base]
   all_goals (repeat' split)
-  all_goals (refine ⟨?_, ?_, ?_, ?_, ?_, ?_, ?_⟩ <;> simp_all [terminals, Kind.basicLike, Emit.isTerm])
+  all_goals (refine ⟨?_, ?_, ?_, ?_, ?_, ?_, ?_⟩ <;> simp_all [terminals, Kind.basicLike, Emit.isTerm, List.filter])
 
 theorem finish_inv (s : St) (h : Inv s) : Inv (finish s) := by
   obtain ⟨h1, h2, h3, h3', h4, h5, h6⟩ := h
@@ -82,7 +82,7 @@ theorem finish_inv (s : St) (h : Inv s) : Inv (finish s) := by
 theorem haltState_inv (s : St) (r : Res) (h : Inv s) : Inv (haltState s r) := by
   cases r <;> simp only [haltState] <;> first | exact h | exact finish_inv s h
 
-theorem runFrom_inv (s : St) (ops : List Op) (h : Inv s) : Inv (runFrom s ops).st := by
+theorem runFrom_inv (c : Cfg) (s : St) (ops : List Op) (h : Inv s) : Inv (runFrom c s ops).st := by
   induction ops generalizing s with
   | nil => exact finish_inv s h
   | cons op ops ih =>
@@ -91,31 +91,32 @@ theorem runFrom_inv (s : St) (ops : List Op) (h : Inv s) : Inv (runFrom s ops).s
     · exact ih s h
     · split
       · exact haltState_inv s _ h
-      · exact ih _ (step_inv s op h)
+      · exact ih _ (step_inv c s op h)
 
-theorem run_inv (k : Kind) (b : Beh) (ops : List Op) : Inv (run k b ops).st := by
+theorem run_inv (c : Cfg) (k : Kind) (b : Beh) (ops : List Op) : Inv (run c k b ops).st := by
   simp only [run]
   split
-  · exact init_inv k b
-  · exact runFrom_inv _ ops (init_inv k b)
+  · exact init_inv c k b
+  · exact runFrom_inv c _ ops (init_inv c k b)
 
-theorem run_of_halts (k : Kind) (b : Beh) (ops : List Op) (h : (init k b).2.halts = true) :
-    run k b ops = { st := (init k b).1, res := [(init k b).2], halted := true } := by
+theorem run_of_halts (c : Cfg) (k : Kind) (b : Beh) (ops : List Op) (h : (init c k b).2.halts = true) :
+    run c k b ops = { st := (init c k b).1, res := [(init c k b).2], halted := true } := by
   simp [run, h]
 
-theorem run_of_not_halts (k : Kind) (b : Beh) (ops : List Op) (h : (init k b).2.halts = false) :
-    run k b ops = { st := (runFrom (init k b).1 ops).st, res := (init k b).2 :: (runFrom (init k b).1 ops).res,
-                    halted := (runFrom (init k b).1 ops).halted } := by
+theorem run_of_not_halts (c : Cfg) (k : Kind) (b : Beh) (ops : List Op) (h : (init c k b).2.halts = false) :
+    run c k b ops = { st := (runFrom c (init c k b).1 ops).st,
+                      res := (init c k b).2 :: (runFrom c (init c k b).1 ops).res,
+                      halted := (runFrom c (init c k b).1 ops).halted } := by
   simp [run, h]
 
 /-! ### a carried-out KILL is remembered -/
 
-theorem step_killed_mono (s : St) (op : Op) (h : s.killed = true) : (step s op).1.killed = true := by
+theorem step_killed_mono (c : Cfg) (s : St) (op : Op) (h : s.killed = true) : (step c s op).1.killed = true := by
   cases op <;> simp only [step, spawn, stopBasic, ctlTransition, reapCtl, escalate]
   all_goals (repeat' split)
   all_goals simp_all
 
-theorem step_kill_ok (s : St) (h : (step s .kill).2 = .ok) : (step s .kill).1.killed = true := by
+theorem step_kill_ok (c : Cfg) (s : St) (h : (step c s .kill).2 = .ok) : (step c s .kill).1.killed = true := by
   revert h
   simp only [step, reapCtl, escalate]
   repeat' split
@@ -127,7 +128,7 @@ theorem finish_killed (s : St) : (finish s).killed = s.killed := by
 theorem haltState_killed (s : St) (r : Res) : (haltState s r).killed = s.killed := by
   cases r <;> simp only [haltState, finish_killed]
 
-theorem runFrom_killed_mono (s : St) (ops : List Op) (h : s.killed = true) : (runFrom s ops).st.killed = true := by
+theorem runFrom_killed_mono (c : Cfg) (s : St) (ops : List Op) (h : s.killed = true) : (runFrom c s ops).st.killed = true := by
   induction ops generalizing s with
   | nil => simpa [runFrom, finish_killed] using h
   | cons op ops ih =>
@@ -136,10 +137,10 @@ theorem runFrom_killed_mono (s : St) (ops : List Op) (h : s.killed = true) : (ru
     · exact ih s h
     · split
       · rw [haltState_killed]; exact h
-      · exact ih _ (step_killed_mono s op h)
+      · exact ih _ (step_killed_mono c s op h)
 
-theorem runFrom_killOk (s : St) (ops : List Op) (h : killOkFrom ops (runFrom s ops).res = true) :
-    (runFrom s ops).st.killed = true := by
+theorem runFrom_killOk (c : Cfg) (s : St) (ops : List Op) (h : killOkFrom ops (runFrom c s ops).res = true) :
+    (runFrom c s ops).st.killed = true := by
   induction ops generalizing s with
   | nil => simp [killOkFrom] at h
   | cons op ops ih =>
@@ -149,14 +150,14 @@ theorem runFrom_killOk (s : St) (ops : List Op) (h : killOkFrom ops (runFrom s o
       rename_i hl
       simp only [hl, ↓reduceIte]
       simp only [killOkFrom] at h
-      have : killOkFrom ops (runFrom s ops).res = true := by simpa using h
+      have : killOkFrom ops (runFrom c s ops).res = true := by simpa using h
       exact ih s this
     · rename_i hl
       simp only [hl]
       split at h
       · rename_i hh
         simp only [killOkFrom] at h
-        have hr : (step s op).2 ≠ .ok := by intro e; rw [e] at hh; simp [Res.halts] at hh
+        have hr : (step c s op).2 ≠ .ok := by intro e; rw [e] at hh; simp [Res.halts] at hh
         cases ops <;> simp [hr] at h
       · rename_i hh
         simp only [hh]
@@ -165,7 +166,7 @@ theorem runFrom_killOk (s : St) (ops : List Op) (h : killOkFrom ops (runFrom s o
         | inl h =>
           obtain ⟨h1, h2⟩ := h
           subst h1
-          exact runFrom_killed_mono _ ops (step_kill_ok s h2)
+          exact runFrom_killed_mono c _ ops (step_kill_ok c s h2)
         | inr h => exact ih _ h
 
 /-! ### nothing after the terminal status (needs: no KILL of a basic/hook task that is armed or alive) -/
@@ -179,16 +180,17 @@ structure Quiet (s : St) : Prop where
   rpc : 1 ≤ terminals s.out → s.rpc = false
 
 set_option maxHeartbeats 4000000 in
-theorem step_quiet (s : St) (op : Op) (hi : Inv s) (h : Quiet s)
-    (ha : killArmed s op = false) (hl : killLive s op = false) : Quiet (step s op).1 := by
+theorem step_quiet (c : Cfg) (s : St) (op : Op) (hi : Inv s) (h : Quiet s)
+    (ha : killArmedIn c s op = false) (hl : killLive s op = false) : Quiet (step c s op).1 := by
   obtain ⟨h1, h2, h3, h3', h4, h5, h6⟩ := hi
   obtain ⟨q1, q2, q3, q4, q5⟩ := h
-  cases op <;> simp only [step, spawn, stopBasic, ctlTransition, reapCtl, escalate]
+  cases hks : c.killStopsTimer <;>
+    cases op <;> simp only [step, spawn, stopBasic, ctlTransition, reapCtl, escalate]
   all_goals (repeat' split)
   all_goals (refine ⟨?_, ?_, ?_, ?_, ?_⟩ <;>
-    simp_all [killArmed, killLive, St.alive, Kind.basicLike, nothingAfter_snoc])
+    simp_all [killArmedIn, killArmed, killLive, St.alive, Kind.basicLike, nothingAfter_snoc])
 
-theorem init_quiet (k : Kind) (b : Beh) : Quiet (init k b).1 := by
+theorem init_quiet (c : Cfg) (k : Kind) (b : Beh) : Quiet (init c k b).1 := by
   cases k <;> simp only [init, base]
   all_goals (repeat' split)
   all_goals (refine ⟨?_, ?_, ?_, ?_, ?_⟩ <;> simp_all [terminals, nothingAfter, Emit.isTerm, List.filter])
@@ -206,9 +208,9 @@ theorem finish_quiet (s : St) (h : Quiet s) : Quiet (finish s) := by
     refine ⟨?_, ?_, ?_, ?_, ?_⟩ <;> simp_all [nothingAfter_snoc]
   · exact ⟨q1, q2, q3, q4, q5⟩
 
-theorem runFrom_quiet (s : St) (ops : List Op) (hi : Inv s) (h : Quiet s)
-    (ha : neverFrom killArmed s ops = true) (hl : neverFrom killLive s ops = true) :
-    nothingAfter (runFrom s ops).st.out = true := by
+theorem runFrom_quiet (c : Cfg) (s : St) (ops : List Op) (hi : Inv s) (h : Quiet s)
+    (ha : neverFrom c (killArmedIn c) s ops = true) (hl : neverFrom c killLive s ops = true) :
+    nothingAfter (runFrom c s ops).st.out = true := by
   induction ops generalizing s with
   | nil => exact (finish_quiet s h).na
   | cons op ops ih =>
@@ -217,7 +219,7 @@ theorem runFrom_quiet (s : St) (ops : List Op) (hi : Inv s) (h : Quiet s)
     split
     · rename_i hloop
       -- the loop is gone: nothing is delivered; the rest of the schedule is `dead`
-      have : ∀ ops', (runFrom s ops').st = finish s := by
+      have : ∀ ops', (runFrom c s ops').st = finish s := by
         intro ops'
         induction ops' with
         | nil => rfl
@@ -226,30 +228,162 @@ theorem runFrom_quiet (s : St) (ops : List Op) (hi : Inv s) (h : Quiet s)
     · rename_i hloop
       simp only [hloop] at ha hl
       split
-      · generalize (step s op).2 = r
+      · generalize (step c s op).2 = r
         cases r <;> simp only [haltState] <;> first | exact h.na | exact (finish_quiet s h).na
       · rename_i hh
-        have ha1 : killArmed s op = false := by
-          cases hk : killArmed s op <;> simp_all
+        have ha1 : killArmedIn c s op = false := by
+          cases hk : killArmedIn c s op <;> simp_all
         have hl1 : killLive s op = false := by
           cases hk : killLive s op <;> simp_all
         simp only [ha1, hl1, hh] at ha hl
-        exact ih _ (step_inv s op hi) (step_quiet s op hi h ha1 hl1) (by simpa using ha) (by simpa using hl)
+        exact ih _ (step_inv c s op hi) (step_quiet c s op hi h ha1 hl1) (by simpa using ha) (by simpa using hl)
 
-/-! ### stuck exactly in the four unsafe request states -/
+/-! ### TASK_RUNNING never follows the terminal status once Kill stops the timer -/
 
-theorem step_stuck_iff (s : St) (op : Op) : (step s op).2.stuck = unsafeReq s op := by
+theorem noRunningAfter_of_terminals_zero (es : List Emit) (h : terminals es = 0) : noRunningAfter es = true := by
+  induction es with
+  | nil => rfl
+  | cons x xs ih =>
+    have hx : x.isTerm = false := by
+      cases hx : x.isTerm
+      · rfl
+      · simp [terminals, List.filter, hx] at h
+    have hxs : terminals xs = 0 := by simpa [terminals, List.filter, hx] using h
+    simp [noRunningAfter, hx, ih hxs]
+
+/-- appending something that is not TASK_RUNNING keeps the clause -/
+theorem noRunningAfter_snoc (es : List Emit) (e : Emit) (h : noRunningAfter es = true) (he : e ≠ .running) :
+    noRunningAfter (es ++ [e]) = true := by
+  induction es with
+  | nil => cases e <;> simp_all [noRunningAfter, Emit.isTerm]
+  | cons x xs ih =>
+    cases hx : x.isTerm
+    · simp only [List.cons_append, noRunningAfter, hx] at h ⊢
+      exact ih h
+    · simp only [List.cons_append, noRunningAfter, hx, ↓reduceIte] at h ⊢
+      cases e <;> simp_all
+
+theorem noRunningAfter_snoc_zero (es : List Emit) (e : Emit) (h : terminals es = 0) :
+    noRunningAfter (es ++ [e]) = true := by
+  induction es with
+  | nil => cases e <;> simp [noRunningAfter, Emit.isTerm]
+  | cons x xs ih =>
+    have hx : x.isTerm = false := by
+      cases hx : x.isTerm
+      · rfl
+      · simp [terminals, List.filter, hx] at h
+    have hxs : terminals xs = 0 := by simpa [terminals, List.filter, hx] using h
+    simp [noRunningAfter, hx, ih hxs]
+
+@[simp] theorem bttOf_ne_running (c : Child) (p : Option Fin) : bttOf c p ≠ Emit.running := by
+  cases p <;> simp [bttOf]
+
+@[simp] theorem terminals_single_btt (c : Child) (p : Option Fin) : terminals [bttOf c p] = 0 := by
+  cases p <;> rfl
+
+/-- the armed timer belongs to a task without terminal status -/
+structure Armed (s : St) : Prop where
+  nr : noRunningAfter s.out = true
+  tim : s.timer = true → terminals s.out = 0
+  bl : s.timer = true → s.kind.basicLike = true
+
+theorem step_armed (c : Cfg) (hc : c.killStopsTimer = true) (s : St) (op : Op) (h : Armed s) :
+    Armed (step c s op).1 := by
+  obtain ⟨a1, a2, a3⟩ := h
+  cases op <;> simp only [step, spawn, stopBasic, ctlTransition, reapCtl, escalate]
+  all_goals (repeat' split)
+  all_goals (refine ⟨?_, ?_, ?_⟩ <;>
+    simp_all [noRunningAfter_snoc, noRunningAfter_snoc_zero, noRunningAfter_of_terminals_zero, terminals_append,
+      Kind.basicLike])
+
+theorem init_armed (c : Cfg) (k : Kind) (b : Beh) : Armed (init c k b).1 := by
+  cases k <;> simp only [init, base]
+  all_goals (repeat' split)
+  all_goals (refine ⟨?_, ?_, ?_⟩ <;> simp_all [terminals, noRunningAfter, Emit.isTerm, List.filter, Kind.basicLike])
+
+theorem finish_armed (s : St) (h : Armed s) : Armed (finish s) := by
+  obtain ⟨a1, a2, a3⟩ := h
+  simp only [finish]
+  split
+  · rename_i hc
+    simp only [Bool.and_eq_true] at hc
+    have ht := a2 hc.1.2
+    refine ⟨?_, ?_, ?_⟩ <;> simp_all [noRunningAfter_snoc_zero, noRunningAfter_of_terminals_zero, terminals_append]
+  · exact ⟨a1, a2, a3⟩
+
+theorem runFrom_armed (c : Cfg) (hc : c.killStopsTimer = true) (s : St) (ops : List Op) (h : Armed s) :
+    Armed (runFrom c s ops).st := by
+  induction ops generalizing s with
+  | nil => exact finish_armed s h
+  | cons op ops ih =>
+    simp only [runFrom]
+    split
+    · exact ih s h
+    · split
+      · generalize (step c s op).2 = r
+        cases r <;> simp only [haltState] <;> first | exact h | exact finish_armed s h
+      · exact ih _ (step_armed c hc s op h)
+
+/-! ### a predicate that holds of no request is never met; the kind of a task never changes -/
+
+theorem neverFrom_of_false (c : Cfg) (P : St → Op → Bool) (hP : ∀ s op, P s op = false) (s : St) (ops : List Op) :
+    neverFrom c P s ops = true := by
+  induction ops generalizing s with
+  | nil => rfl
+  | cons op ops ih =>
+    simp only [neverFrom, hP]
+    split
+    · rfl
+    · simp only [Bool.false_eq_true, ↓reduceIte]
+      split
+      · rfl
+      · exact ih _
+
+theorem never_of_false (c : Cfg) (P : St → Op → Bool) (hP : ∀ s op, P s op = false) (k : Kind) (b : Beh)
+    (ops : List Op) : never c P k b ops = true := by
+  simp only [never]
+  split
+  · rfl
+  · exact neverFrom_of_false c P hP _ ops
+
+theorem step_kind (c : Cfg) (s : St) (op : Op) : (step c s op).1.kind = s.kind := by
+  cases op <;> simp only [step, spawn, stopBasic, ctlTransition, reapCtl, escalate]
+  all_goals (repeat' split)
+  all_goals simp_all
+
+theorem init_kind (c : Cfg) (k : Kind) (b : Beh) : (init c k b).1.kind = k := by
+  cases k <;> simp only [init, base]
+  all_goals (repeat' split)
+  all_goals rfl
+
+/-- a predicate that needs a controllable task is never met by a task of another kind -/
+theorem neverFrom_of_kind (c : Cfg) (P : St → Op → Bool) (hP : ∀ s op, s.kind ≠ .ctl → P s op = false)
+    (s : St) (hk : s.kind ≠ .ctl) (ops : List Op) : neverFrom c P s ops = true := by
+  induction ops generalizing s with
+  | nil => rfl
+  | cons op ops ih =>
+    simp only [neverFrom, hP s op hk]
+    split
+    · rfl
+    · simp only [Bool.false_eq_true, ↓reduceIte]
+      split
+      · rfl
+      · exact ih _ (by rw [step_kind]; exact hk)
+
+/-! ### stuck exactly in the unsafe request states -/
+
+theorem step_stuck_iff (c : Cfg) (s : St) (op : Op) : (step c s op).2.stuck = unsafeReq c s op := by
   cases op <;> simp only [step, spawn, stopBasic, ctlTransition, reapCtl, escalate, unsafeReq,
     stopUnreaped, stopChannelFull, killNoRpc, killInactive]
   all_goals (repeat' split)
   all_goals simp_all [Res.stuck]
 
-theorem runFrom_dead_res (s : St) (ops : List Op) (h : s.loop = false) : noStuck (runFrom s ops).res = true := by
+theorem runFrom_dead_res (c : Cfg) (s : St) (ops : List Op) (h : s.loop = false) : noStuck (runFrom c s ops).res = true := by
   induction ops with
   | nil => rfl
   | cons o os ih => simp only [runFrom, h, Bool.not_false, ↓reduceIte]; simpa [noStuck, Res.stuck] using ih
 
-theorem runFrom_noStuck (s : St) (ops : List Op) : noStuck (runFrom s ops).res = neverFrom unsafeReq s ops := by
+theorem runFrom_noStuck (c : Cfg) (s : St) (ops : List Op) : noStuck (runFrom c s ops).res = neverFrom c (unsafeReq c) s ops := by
   induction ops generalizing s with
   | nil => rfl
   | cons op ops ih =>
@@ -257,16 +391,16 @@ theorem runFrom_noStuck (s : St) (ops : List Op) : noStuck (runFrom s ops).res =
     split
     · rename_i hl
       have hl' : s.loop = false := by simpa using hl
-      have := runFrom_dead_res s ops hl'
+      have := runFrom_dead_res c s ops hl'
       simpa [noStuck, Res.stuck] using this
-    · have hst := step_stuck_iff s op
-      cases hu : unsafeReq s op
+    · have hst := step_stuck_iff c s op
+      cases hu : unsafeReq c s op
       · -- safe request: the step is not stuck, hence does not halt
         rw [hu] at hst
-        have hnh : (step s op).2.halts = false := by
-          cases hr : (step s op).2 <;> simp_all [Res.halts, Res.stuck]
+        have hnh : (step c s op).2.halts = false := by
+          cases hr : (step c s op).2 <;> simp_all [Res.halts, Res.stuck]
         simp only [hnh, Bool.false_eq_true, ↓reduceIte]
-        have := ih (step s op).1
+        have := ih (step c s op).1
         simp only [noStuck, List.all_cons, hst, Bool.not_false, Bool.true_and] at this ⊢
         exact this
       · rw [hu] at hst
@@ -275,23 +409,23 @@ theorem runFrom_noStuck (s : St) (ops : List Op) : noStuck (runFrom s ops).res =
         · simp [noStuck, hst]
         · simp [noStuck, hst]
 
-theorem init_halts (k : Kind) (b : Beh) : (init k b).2.halts = launchCrashes k b := by
+theorem init_halts (c : Cfg) (k : Kind) (b : Beh) : (init c k b).2.halts = launchCrashes c k b := by
   cases k <;> simp only [init, launchCrashes]
   all_goals (repeat' split)
   all_goals simp_all [Res.halts]
 
-theorem init_ok (k : Kind) (b : Beh) (h : (init k b).2.halts = false) : (init k b).2 = .ok := by
+theorem init_ok (c : Cfg) (k : Kind) (b : Beh) (h : (init c k b).2.halts = false) : (init c k b).2 = .ok := by
   revert h
   cases k <;> simp only [init]
   all_goals (repeat' split)
   all_goals simp [Res.halts]
 
-theorem init_stuck (k : Kind) (b : Beh) (h : (init k b).2.halts = true) : (init k b).2.stuck = true := by
-  cases hr : (init k b).2 <;> simp_all [Res.halts, Res.stuck]
+theorem init_stuck (c : Cfg) (k : Kind) (b : Beh) (h : (init c k b).2.halts = true) : (init c k b).2.stuck = true := by
+  cases hr : (init c k b).2 <;> simp_all [Res.halts, Res.stuck]
 
 /-! ### survivors -/
 
-theorem step_halts_active (s : St) (op : Op) (h : (step s op).2.halts = true) : s.active = true := by
+theorem step_halts_active (c : Cfg) (s : St) (op : Op) (h : (step c s op).2.halts = true) : s.active = true := by
   revert h
   cases op <;> simp only [step, spawn, stopBasic, ctlTransition, reapCtl, escalate]
   all_goals (repeat' split)
@@ -299,15 +433,15 @@ theorem step_halts_active (s : St) (op : Op) (h : (step s op).2.halts = true) : 
 
 def Surv (s : St) : Prop := s.killed = true → s.alive = false
 
-theorem step_surv (s : St) (op : Op) (hi : Inv s) (h : Surv s)
-    (hl : killLive s op = false) (hh : killHelpers s op = false) : Surv (step s op).1 := by
+theorem step_surv (c : Cfg) (s : St) (op : Op) (hi : Inv s) (h : Surv s)
+    (hl : killLive s op = false) (hh : killHelpers s op = false) : Surv (step c s op).1 := by
   obtain ⟨h1, h2, h3, h3', h4, h5, h6⟩ := hi
   unfold Surv at *
   cases op <;> simp only [step, spawn, stopBasic, ctlTransition, reapCtl, escalate]
   all_goals (repeat' split)
   all_goals simp_all [killLive, killHelpers, St.alive, Kind.basicLike]
 
-theorem init_surv (k : Kind) (b : Beh) : Surv (init k b).1 := by
+theorem init_surv (c : Cfg) (k : Kind) (b : Beh) : Surv (init c k b).1 := by
   unfold Surv
   cases k <;> simp only [init, base]
   all_goals (repeat' split)
@@ -316,10 +450,10 @@ theorem init_surv (k : Kind) (b : Beh) : Surv (init k b).1 := by
 theorem finish_alive (s : St) : (finish s).alive = s.alive := by
   simp only [finish]; split <;> rfl
 
-theorem runFrom_survivors (s : St) (ops : List Op) (hi : Inv s) (hs : Surv s)
-    (hl : neverFrom killLive s ops = true) (hh : neverFrom killHelpers s ops = true)
-    (hk : (runFrom s ops).st.killed = true) :
-    (runFrom s ops).halted = false ∧ (runFrom s ops).st.alive = false := by
+theorem runFrom_survivors (c : Cfg) (s : St) (ops : List Op) (hi : Inv s) (hs : Surv s)
+    (hl : neverFrom c killLive s ops = true) (hh : neverFrom c killHelpers s ops = true)
+    (hk : (runFrom c s ops).st.killed = true) :
+    (runFrom c s ops).halted = false ∧ (runFrom c s ops).st.alive = false := by
   induction ops generalizing s with
   | nil =>
     simp only [runFrom, finish_killed, finish_alive] at hk ⊢
@@ -331,7 +465,7 @@ theorem runFrom_survivors (s : St) (ops : List Op) (hi : Inv s) (hs : Surv s)
     · rename_i hloop
       simp only [hloop, ↓reduceIte] at hk hl hh
       -- nothing is delivered any more: the rest behaves as the empty schedule
-      have hst : ∀ ops', (runFrom s ops').st = finish s ∧ (runFrom s ops').halted = false := by
+      have hst : ∀ ops', (runFrom c s ops').st = finish s ∧ (runFrom c s ops').halted = false := by
         intro ops'
         induction ops' with
         | nil => exact ⟨rfl, rfl⟩
@@ -345,7 +479,7 @@ theorem runFrom_survivors (s : St) (ops : List Op) (hi : Inv s) (hs : Surv s)
       split
       · rename_i hhalt
         simp only [hhalt, ↓reduceIte, Bool.false_eq_true, haltState_killed] at hk
-        have := step_halts_active s op hhalt
+        have := step_halts_active c s op hhalt
         have := hi.kil hk
         simp_all
       · rename_i hhalt
@@ -355,6 +489,6 @@ theorem runFrom_survivors (s : St) (ops : List Op) (hi : Inv s) (hs : Surv s)
         have hh1 : killHelpers s op = false := by
           cases hk' : killHelpers s op <;> simp_all
         simp only [hl1, hh1, hhalt] at hl hh
-        exact ih _ (step_inv s op hi) (step_surv s op hi hs hl1 hh1) (by simpa using hl) (by simpa using hh) hk
+        exact ih _ (step_inv c s op hi) (step_surv c s op hi hs hl1 hh1) (by simpa using hl) (by simpa using hh) hk
 
 end ExecTask
